@@ -15,6 +15,7 @@ import (
 	"path/filepath"
 	"sort"
 	"strings"
+	"time"
 
 	prysmBLS "github.com/prysmaticlabs/prysm/v3/crypto/bls"
 
@@ -27,7 +28,7 @@ import (
 
 type reinitStats struct {
 	Ops, Scenarios, Reinits, HashEdits, HashEditKinds int
-	ReinitCrashEffects, ReinitCrashRuns               int
+	ReinitCrashEffects, ReinitCrashRuns, LateForged   int
 	OutcomeHist                                       map[string]int
 	Monitors, Notes, Samples                          []string
 }
@@ -109,7 +110,44 @@ func (r *reinitRun) scenario(outDir string, n, t int, interleave, junk, adapt, b
 			Signature: bytes.Repeat([]byte{7}, 64), SenderAddr: a.nodes[1%n].name})
 	}
 	rngPump := rand.New(rand.NewSource(r.rng.Int63()))
-	a.pumpShuffled(rngPump, 80)
+	if !junk {
+		a.pumpShuffled(rngPump, 80)
+	} else {
+		// with junk: a second forged message LATE in the key generation - when every node waits for the master-key
+		// announcements (after the point where a 0.1.4 adaptation puts its unsigned self-confirmations): an announcement of a
+		// made-up key in the name of participant 1 with a signature that does not verify. The original nodes reject it; a
+		// re-initialisation must reject it too, whatever was replayed before it
+		lateForged := false
+		for rd := 0; rd < 80; rd++ {
+			moved := 0
+			for _, i := range rngPump.Perm(n) {
+				evs, _ := a.pollOnce(a.nodes[i], 0)
+				moved += len(evs)
+			}
+			if !lateForged {
+				all := true
+				for _, nd := range a.nodes {
+					if a.roundState(nd, round) != "state_dkg_master_key_await_confirmations" {
+						all = false
+					}
+				}
+				if all {
+					lateForged = true
+					r.st.LateForged++
+					forged, _ := json.Marshal(map[string]interface{}{"ParticipantId": 1 % n, "MasterKey": []byte("a made-up group key, 48 bytes long, never derived"), "CreatedAt": time.Now().UTC().Format(time.RFC3339Nano)})
+					a.nodes[0].stg.Send(storage.Message{ID: "forged-2", DkgRoundID: round, Event: "event_dkg_master_key_confirm_received", Data: forged,
+						Signature: bytes.Repeat([]byte{9}, 64), SenderAddr: a.nodes[1%n].name})
+				}
+			}
+			for _, i := range rngPump.Perm(n) {
+				k, _ := a.answerAll(a.nodes[i])
+				moved += k
+			}
+			if moved == 0 {
+				break
+			}
+		}
+	}
 	if junk {
 		// junk on the board: unsigned, unknown events, another round id
 		a.nodes[0].stg.Send(storage.Message{ID: "junk-1", DkgRoundID: round, Event: "event_bogus", Data: []byte("{}"), SenderAddr: "nobody"})
@@ -154,7 +192,9 @@ func (r *reinitRun) scenario(outDir string, n, t int, interleave, junk, adapt, b
 			}
 			stripped = append(stripped, m)
 		}
-		dump = stripped
+		// … and its master-key announcements carried no public polynomial: the re-initialised round gets it from the
+		// machine's answer to the reinit operation only
+		dump = stripPubPoly(a, stripped)
 	}
 	if blankIDs {
 		// a dump exported from a Kafka board: messages posted from airgapped results carry no id there
@@ -228,6 +268,11 @@ func (r *reinitRun) scenario(outDir string, n, t int, interleave, junk, adapt, b
 		got := roundPublic(nd, round)
 		if got != origPublic {
 			r.mon(fmt.Sprintf("C20 state_reproduced %s: node %d after the reinitialisation: %s; original: %s", tag, i, truncate(got, 300), truncate(origPublic, 300)))
+			if os.Getenv("VERIF_DEBUG") != "" {
+				for _, l := range tailStr(nd.lg.lines, 40) {
+					fmt.Fprintf(os.Stderr, "   %s\n", truncate(l, 400))
+				}
+			}
 			break
 		}
 	}
